@@ -2,19 +2,26 @@ package wpool
 
 import (
 	"log/slog"
+
+	"github.com/glebziz/fs_db/internal/verifhook"
 )
 
 func (p *Pool) Stop() {
+	verifhook.At("wpool.stop.enter")
 	defer p.runM.Unlock()
 	if p.runM.TryLock() {
 		slog.Warn("worker pool already stopped")
 		return
 	}
 
+	verifhook.At("wpool.stop.cancel")
 	p.cancel()
+	verifhook.At("wpool.stop.waitSend")
 	p.sendWg.Wait()
+	verifhook.At("wpool.stop.waitRun")
 	p.runWg.Wait()
 
+	verifhook.At("wpool.stop.close")
 	close(p.ch)
 	p.el.Clear()
 }
